@@ -121,6 +121,17 @@ CHECKS['C05'] = dict(cat='other', engine='symnp',
          'subset are never invalidated) is excluded by its witness-class predicate while its demonstration still fails; '
          'FloodFillSubsetState and viewer-layer caches outside the claim')
 
+CHECKS['C16'] = dict(cat='other', engine='symnp',
+    technique='symbolic execution of the real buffer code (symbolic bounds, data, link offsets; gather as ite chains; cache hits as solver-decided forks) + SMT equivalence',
+    text='(1) one uncached request per path (values of two attributes, two selections; source = the reference itself, an '
+         'axis-permuted, an offset/scaled/flipped and a lower-dimensional linked dataset; scalar or ranged first bound): every '
+         'element equals the value of the nearest source pixel at the linked position (numpy round-half-even), NaN / not selected '
+         'outside the source. (2) sequences of three (thorough: four) requests under one cache id with independently symbolic '
+         'bounds drawn from option pools, changing attribute / selection between requests: each answer equals the uncached one - '
+         'whether a cache entry matches is decided by the solver on the symbolic bounds, AnyScalar and bounds_for_cache run for '
+         'real. (3) slice_to_bound (AST-extracted): bounds describe exactly range(size)[slice].', ref='5/C16',
+    note=NOTE_SYM + '; dask branch and selections on pixel attributes outside the claim; links are affine functions given as closures')
+
 NOT_YET = {}
 
 NOT_APPLICABLE = {
